@@ -308,10 +308,46 @@ def gen_consts():
     write("Consts.lean", out)
 
 
+def gen_orderings():
+    """memory orderings of every atomic access to the two lazily initialised cache pointers"""
+    ordmap = {"Relaxed": "relaxed", "Acquire": "acquire", "Release": "release", "AcqRel": "acqRel", "SeqCst": "seqCst"}
+    loads, cas, stores = [], [], []
+    for path, field in (("src/lazyvalue/owned.rs", "parsed"), ("src/lazyvalue/value.rs", "unescaped")):
+        flat = re.sub(r"//[^\n]*", "", src(path))      # (line structure kept: the table records line numbers)
+        for m in re.finditer(r"\.\s*" + field + r"\s*\.\s*load\s*\(\s*Ordering::(\w+)\s*\)", flat):
+            line = flat.count("\n", 0, m.start()) + 1
+            loads.append((path, line, ordmap.get(m.group(1))))
+        for m in re.finditer(r"\.\s*" + field + r"\s*\.\s*store\s*\([^;]*?Ordering::(\w+)\s*\)", flat, flags=re.S):
+            line = flat.count("\n", 0, m.start()) + 1
+            stores.append((path, line, ordmap.get(m.group(1))))
+        for m in re.finditer(r"\.\s*" + field + r"\s*\.\s*compare_exchange(?:_weak)?\s*\((.*?)\)\s*\{?", flat, flags=re.S):
+            os_ = re.findall(r"Ordering::(\w+)", m.group(1))
+            line = flat.count("\n", 0, m.start()) + 1
+            if len(os_) != 2:
+                problems.append(f"compare_exchange on {field} at {path}:{line}: orderings not understood")
+                continue
+            cas.append((path, line, ordmap.get(os_[0]), ordmap.get(os_[1])))
+    if not loads or not cas:
+        problems.append("no load / compare_exchange of the cache pointers found")
+    if any(o is None for _, _, o in loads + stores) or any(a is None or b is None for _, _, a, b in cas):
+        problems.append("an Ordering of a cache-pointer access was not understood")
+    out = "/- GENERATED by tools/gen_tables.py from src/lazyvalue/{owned,value}.rs — do not edit -/\nnamespace Sonic.Gen\n\n"
+    out += "inductive MemOrd where\n  | relaxed | acquire | release | acqRel | seqCst\n  deriving DecidableEq, Repr\n\n"
+    out += "/-- every `load` of a cache pointer (`LazyRaw::parsed`, `Inner::unescaped`): file, line, ordering -/\n"
+    out += "def cacheLoads : List (String × Nat × MemOrd) := [\n" + ",\n".join(f'  ("{p}", {l}, .{o})' for p, l, o in loads) + "]\n\n"
+    out += "/-- every `compare_exchange` of a cache pointer: file, line, success ordering, failure ordering -/\n"
+    out += "def cacheCas : List (String × Nat × MemOrd × MemOrd) := [\n" + ",\n".join(f'  ("{p}", {l}, .{a}, .{b})' for p, l, a, b in cas) + "]\n\n"
+    out += "/-- every plain `store` to a cache pointer -/\n"
+    out += "def cacheStores : List (String × Nat × MemOrd) := [" + ", ".join(f'("{p}", {l}, .{o})' for p, l, o in stores) + "]\n"
+    out += "\nend Sonic.Gen\n"
+    write("Orderings.lean", out)
+
+
 def main():
     gen_tables()
     gen_errors()
     gen_consts()
+    gen_orderings()
     for p in problems:
         print("gen_tables: PROBLEM:", p)
     sys.exit(2 if problems else 0)
